@@ -16,6 +16,8 @@ def exec : List Sexp → String
      | _, _ => "bad-op")
   | [.atom "fmt", ctx, ve] => execFmt driverIO ctx ve
   | [.atom "fmtx", ctx, ve] => C20X.exec [.atom "fmtx", ctx, ve]
+  | [.atom "fmtt", ctx, ve] => C20X.exec [.atom "fmtt", ctx, ve]
+  | [.atom "keysubx", a, b] => C20X.exec [.atom "keysubx", a, b]
   | [.atom "fmtf", ctx, ve, ofint, oracle] =>
     match oracleOf oracle with
     | none => "bad-op"
